@@ -8,3 +8,4 @@ import WowVerif.Props.C09
 import WowVerif.Props.C12
 import WowVerif.Props.C11
 import WowVerif.Props.C20
+import WowVerif.Props.C19
